@@ -33,13 +33,18 @@ def parseStatus : String → Option Status
   | "g" => some .growing | "u" => some .unjustified | "j" => some .justified | "f" => some .finalized | _ => none
 
 /-- `T <vetoes> <votes> <fee>` groups -/
-def parseTxs : List String → Option (List CTx)
+def parseTxsCore : List String → Option (List CTx)
   | [] => some []
   | "T" :: ve :: vo :: fee :: rest => do
     let t : CTx := { vetoes := ← parsePairs ve, votes := ← parsePairs vo, fee := ← fee.toNat? }
-    let r ← parseTxs rest
+    let r ← parseTxsCore rest
     pure (t :: r)
   | _ => none
+
+/-- `T <vetoes> <votes> <fee> [B<burn>:<kind>]` groups: the optional `B…` token only tells the
+    harness how to rebuild the transaction (BTM sent to a retirement output); the fee already
+    excludes it, so the model drops the token -/
+def parseTxs (ws : List String) : Option (List CTx) := parseTxsCore (ws.filter (fun w => !w.startsWith "B"))
 
 /-- outputs "amount:program[:flags]" (flags: n = not original, x = not BTM) or "-" -/
 def parseOuts (s : String) : Option (List COut) :=
